@@ -40,10 +40,14 @@ class W:
         s.slot, s.s = K.setup_token(s.x, login=False)
         # a trusted wrapping key can only be made by the SO (public token object)
         assert s.x.call('C_Login', s=s.s, user=0, pin=K.SO_PIN.hex())['rv'] == 0
-        r = s.x.call('C_CreateObject', s=s.s, tmpl=s.x.T(K.resolve(ck, K.template('AES32', token=True, private=False, extra={'CKA_TRUSTED': True}, label=b'trusted-wrapper'))))
-        s.trusted = r['h'] if r['rv'] == 0 else None
+        def somk(kind, label): r = s.x.call('C_CreateObject', s=s.s, tmpl=s.x.T(K.resolve(ck, K.template(kind, token=True, private=False, extra={'CKA_TRUSTED': True}, label=label)))); return r['h'] if r['rv'] == 0 else None
+        s.trusted = somk('AES32', b'trusted-wrapper'); s.trusted_des3 = somk('DES3', b'trusted-des3-wrapper'); s.trusted_rsapub = somk('RSApub', b'trusted-rsa-wrapper')
         s.x.call('C_Logout', s=s.s); assert s.x.call('C_Login', s=s.s, user=1, pin=K.USER_PIN.hex())['rv'] == 0
-        s.wk = s.mk('AES32', value=rnd.randbytes(32)); s.rsapub = s.mk('RSApub')
+        s.wk_value = rnd.randbytes(32); s.wk = s.mk('AES32', value=s.wk_value); s.des3wk = s.mk('DES3', value=K._odd(rnd.randbytes(24)))
+        r = s.x.call('C_CreateObject', s=s.s, tmpl=s.x.T(K.resolve(ck, K.template('RSApub', private=True)))); s.rsapub = r['h'] if r['rv'] == 0 else None       # the user's OWN (untrusted) RSA key pair
+        r = s.x.call('C_CreateObject', s=s.s, tmpl=s.x.T(K.resolve(ck, K.template('RSApriv', private=True)))); s.rsapriv = r['h'] if r['rv'] == 0 else None
+        for nm in ('trusted', 'trusted_des3', 'trusted_rsapub', 'wk', 'des3wk', 'rsapub', 'rsapriv'):
+            if getattr(s, nm) is None: part.inconc(f'helper key {nm} could not be created')
     # ---- leak scanner
     def protect(s, value, tag):
         if value is None or len(value) < WIN: return
@@ -259,10 +263,65 @@ def oneway_cells(w, part, kind, origin, h, known, store):
                     if op == 'copy': x.call('C_DestroyObject', s=w.s, o=tgt)
                     elif lost: return          # the object itself lost its protection: nothing more to learn from it
 
+# ---------------------------------------------------------------- wrap guards: every wrap mechanism x wrapping-key class x trusted/untrusted x wrapped key x state
+WRAPPERS = (('AES', 'wk', 'trusted', ('CKM_AES_KEY_WRAP', 'CKM_AES_KEY_WRAP_PAD', 'CKM_AES_CBC_PAD', 'CKM_AES_CBC', 'CKM_AES_ECB', 'CKM_AES_CTR', 'CKM_AES_GCM')),
+            ('DES3', 'des3wk', 'trusted_des3', ('CKM_DES3_CBC_PAD', 'CKM_DES3_CBC', 'CKM_DES3_ECB')),
+            ('RSA-public', 'rsapub', 'trusted_rsapub', ('CKM_RSA_PKCS', 'CKM_RSA_PKCS_OAEP', 'CKM_RSA_X_509')))
+WRAPPED = ('AES16', 'AES32', 'DES3', 'GEN16', 'GEN64', 'HSHA256', 'RSApriv', 'DSApriv', 'DHpriv', 'ECpriv', 'EDpriv')
+STATES = (('readable', False, True, False), ('unextractable', False, False, False), ('unextractable+sensitive', True, False, False), ('wrap-with-trusted', False, True, True),
+          ('wrap-with-trusted+sensitive', True, True, True), ('wrap-with-trusted+unextractable', True, False, True))
+def recover(w, part, mech, wname, blob, kind, known):
+    """a forbidden wrap succeeded: if the driver holds the matching unwrapping key, get the bytes back (the replies pass through the leak scanner) -> recovered?"""
+    x = w.x; ck = w.ck
+    if wname == 'rsapub' and w.rsapriv:
+        if x.call('C_DecryptInit', s=w.s, mech=MT.params(x, ck, mech), key=w.rsapriv)['rv'] != 0: return None
+        r = x.call('C_Decrypt', s=w.s, data=blob, buf=4096); v = bytes.fromhex(r['out'].get('data', '')) if r['rv'] == 0 else None
+        return v is not None and any(v == kv for kv in known.values())
+    uk = getattr(w, wname)
+    if wname in ('wk', 'des3wk', 'trusted', 'trusted_des3') and kind in K.SECRET_KINDS:
+        r = x.call('C_UnwrapKey', s=w.s, mech=MT.params(x, ck, mech), ukey=uk, wrapped=blob, tmpl=x.T([('CKA_CLASS', ck.CKO_SECRET_KEY), ('CKA_KEY_TYPE', ck[K.ktype(kind)]), ('CKA_TOKEN', False), ('CKA_PRIVATE', True), ('CKA_SENSITIVE', False), ('CKA_EXTRACTABLE', True)]))
+        if r['rv'] != 0: return None
+        _, a = x.getattrs(w.s, r['h'], ['CKA_VALUE']); x.call('C_DestroyObject', s=w.s, o=r['h']); return a.get('CKA_VALUE') in known.values()
+    return None
+
+def wrapguards(w, job, part):
+    x = w.x; ck = w.ck
+    for token in (False, True):
+        for kind in WRAPPED:
+            objs = {}
+            for st, S, E, WT in STATES:
+                v = w.fresh_value(kind); h = w.mk(kind, S, E, v, token=token, private=True, extra=({'CKA_WRAP_WITH_TRUSTED': True} if WT else None))
+                if h is None: part.observe('wrap-guard target could not be built', {'kind': kind, 'state': st}); continue
+                known = known_material(kind, v)
+                if S or not E:
+                    for a, val in known.items(): w.protect(val, f'{K.ktype(kind)}/created,{a}')
+                objs[st] = (h, S, E, WT, known)
+            for wclass, uname, tname, mechs in WRAPPERS:
+                for mech in mechs:
+                    for wname, trusted in ((uname, False), (tname, True)):
+                        wk = getattr(w, wname)
+                        if wk is None or 'readable' not in objs: continue
+                        # positive control: the readable, unrestricted key of this kind wraps under this key with this mechanism
+                        c = x.call('C_WrapKey', s=w.s, mech=MT.params(x, ck, mech), wkey=wk, key=objs['readable'][0], buf=8192); live = c['rv'] == 0 and c['out']['len'] > 0
+                        part.count('wrap_controls_ok' if live else 'wrap_controls_refused')
+                        for st, (h, S, E, WT, known) in objs.items():
+                            if st == 'readable': continue
+                            r = x.call('C_WrapKey', s=w.s, mech=MT.params(x, ck, mech), wkey=wk, key=h, buf=8192); ok = r['rv'] == 0
+                            part.case(('wrap-guard', 'token' if token else 'session', kind, st, wclass, 'trusted' if trusted else 'untrusted', mech), nontrivial=live); part.count('wrap_guard_cells')
+                            why = 'CKA_EXTRACTABLE=false' if not E else ('CKA_WRAP_WITH_TRUSTED=true,wrapping-key-untrusted' if (WT and not trusted) else None)
+                            if ok and why:
+                                rec = recover(w, part, mech, wname, r['out'].get('data', ''), kind, known)
+                                part.violation(f'C_WrapKey|{mech},wrapping={wclass}/{"trusted" if trusted else "untrusted"},key={K.ktype(kind)},{why}|wrapped' + ('+value-recovered' if rec else ''),
+                                               f'C_WrapKey({mech}) under a{" trusted" if trusted else "n untrusted"} {wclass} key wrapped a {K.ktype(kind)} key in state "{st}" ({why})' + ('; the driver then recovered the exact key value with its own unwrapping key' if rec else ''),
+                                               {'kind': kind, 'state': st, 'store': 'token' if token else 'session', 'mechanism': mech, 'wrapping_key': wname, 'recovered': rec})
+                            elif ok and WT and trusted: part.count('wrapped_under_trusted_key_ok')
+            for h, *_ in objs.values(): x.call('C_DestroyObject', s=w.s, o=h)
+
 # ---------------------------------------------------------------- attack sequences
 class Prot:
     def __init__(s, h, kind, S, E, WT, known, note): s.h = h; s.kind = kind; s.S = S; s.E = E; s.WT = WT; s.known = known; s.note = note
-WRAPS = (('CKM_AES_KEY_WRAP', 'wk'), ('CKM_AES_KEY_WRAP_PAD', 'wk'), ('CKM_AES_CBC_PAD', 'wk'), ('CKM_AES_CBC', 'wk'), ('CKM_AES_KEY_WRAP_PAD', 'trusted'), ('CKM_AES_KEY_WRAP', 'trusted'), ('CKM_RSA_PKCS', 'rsapub'), ('CKM_RSA_PKCS_OAEP', 'rsapub'))
+WRAPS = tuple((m, k) for k, ms in (('wk', ('CKM_AES_KEY_WRAP', 'CKM_AES_KEY_WRAP_PAD', 'CKM_AES_CBC_PAD', 'CKM_AES_CBC')), ('trusted', ('CKM_AES_KEY_WRAP', 'CKM_AES_KEY_WRAP_PAD', 'CKM_AES_CBC_PAD', 'CKM_AES_CBC')),
+                                              ('rsapub', ('CKM_RSA_PKCS', 'CKM_RSA_PKCS_OAEP')), ('trusted_rsapub', ('CKM_RSA_PKCS', 'CKM_RSA_PKCS_OAEP')), ('des3wk', ('CKM_DES3_CBC_PAD', 'CKM_DES3_CBC')), ('trusted_des3', ('CKM_DES3_CBC_PAD',))) for m in ms)
 
 def attacks(w, job, part):
     x = w.x; ck = w.ck
@@ -290,10 +349,10 @@ def attacks(w, job, part):
                 mech, wkn = rnd.choice(WRAPS); wk = getattr(w, wkn)
                 if wk is None: continue
                 r = x.call('C_WrapKey', s=w.s, mech=MT.params(x, ck, mech), wkey=wk, key=p.h, buf=4096); steps.append(('wrap', mech, wkn, p.h, r['rvname']))
-                nt = p.E is False or (p.WT is True and wkn != 'trusted'); part.case(('attack', 'wrap', mech, wkn, tk), nontrivial=nt); part.count('attack_steps')
+                nt = p.E is False or (p.WT is True and not wkn.startswith('trusted')); part.case(('attack', 'wrap', mech, wkn, tk), nontrivial=nt); part.count('attack_steps')
                 if r['rv'] == 0 and p.E is False: part.violation(f'C_WrapKey|{mech},key={K.ktype(p.kind)},CKA_EXTRACTABLE=false|wrapped', 'a key with CKA_EXTRACTABLE false was wrapped', wit())
-                if r['rv'] == 0 and p.WT is True and wkn != 'trusted': part.violation(f'C_WrapKey|{mech},key={K.ktype(p.kind)},CKA_WRAP_WITH_TRUSTED=true,wrapping-key-untrusted|wrapped', 'a CKA_WRAP_WITH_TRUSTED key was wrapped under a key whose CKA_TRUSTED is not true', wit())
-                if r['rv'] == 0 and p.WT is True and wkn == 'trusted': part.count('wrapped_under_trusted_key_ok')
+                if r['rv'] == 0 and p.WT is True and not wkn.startswith('trusted'): part.violation(f'C_WrapKey|{mech},key={K.ktype(p.kind)},CKA_WRAP_WITH_TRUSTED=true,wrapping-key-untrusted|wrapped', 'a CKA_WRAP_WITH_TRUSTED key was wrapped under a key whose CKA_TRUSTED is not true', wit())
+                if r['rv'] == 0 and p.WT is True and wkn.startswith('trusted'): part.count('wrapped_under_trusted_key_ok')
             elif act in ('set', 'copy'):
                 clear = [a for a, on in (('CKA_SENSITIVE', p.S is True), ('CKA_EXTRACTABLE', p.E is False), ('CKA_WRAP_WITH_TRUSTED', p.WT is True)) if on]
                 if not clear: continue
@@ -355,6 +414,7 @@ def worker(job):
     try:
         w = W(job['paths'], ck, d, job['backend'], part, random.Random(job['rseed']))
         if job['what'] == 'table': table(w, job, part)
+        elif job['what'] == 'wrapguard': wrapguards(w, job, part)
         else: attacks(w, job, part)
         part.count('protected_values', w.nprot); part.count('bytes_scanned', w.scanned)
     except Died as e:
@@ -371,7 +431,7 @@ def worker(job):
 def run(ctx):
     ctx.rule = ('(1) per key kind (AES16/32, DES, DES2, DES3, generic 16/64, six HMAC key types, RSA/DSA/DH/EC/Ed25519/X25519 private) x origin (created, generated then flipped, unwrapped, derived, copied with flag '
                 'template, copy of a protected key, copy-of-copy) x (SENSITIVE,EXTRACTABLE) in {(1,1),(0,0),(1,0)} x every secret attribute x template shape {alone, mixed with public attributes at position '
-                '0/1/2, named twice} x buffer {NULL,0,len-1,len,len+64}; (2) every reply byte of every later call scanned for >= 8 consecutive bytes of any protected value; (2b) every one-way flag in its protected state x raw CK_BBOOL byte {0x00,0x01,0x02,0x80,0xFF} x {set, copy}, judged by EFFECT (flag still reads protected, reveal still refused with untouched buffer, wrap under an untrusted key still refused); (3) seeded attack sequences '
+                '0/1/2, named twice} x buffer {NULL,0,len-1,len,len+64}; (2) every reply byte of every later call scanned for >= 8 consecutive bytes of any protected value; (2b) every one-way flag in its protected state x raw CK_BBOOL byte {0x00,0x01,0x02,0x80,0xFF} x {set, copy}, judged by EFFECT (flag still reads protected, reveal still refused with untouched buffer, wrap under an untrusted key still refused); (2c) wrap guards: wrapping key {AES, DES3, RSA public} x {user-made untrusted, SO-made trusted} x every wrap mechanism tried x wrapped key (6 secret, 5 private kinds; token and session) x state {unextractable, +sensitive, WRAP_WITH_TRUSTED, +sensitive, +unextractable}, non-trivial when the readable key of the kind wraps under that key and mechanism; a forbidden wrap is followed by recovery of the value with the driver\'s own unwrapping key; (3) seeded attack sequences '
                 '(wrap under untrusted/trusted/RSA keys, set/copy templates clearing a protection, CONCATENATE_* derivations with the protected key as base or as other key, reads).  one evaluation = one '
                 'C_GetAttributeValue cell or one attack step; distinct = (kind, origin, flags, attribute, shape, buffer) / (step kind, mechanism, target state); non-trivial = the readable control instance of '
                 'the same (kind, origin) returned exactly the value the driver believes AND the instance is protected')
@@ -386,6 +446,7 @@ def run(ctx):
     for i in range(0, na, per):
         be = backends[(i // per) % len(backends)]
         jobs.append(dict(paths=p, hdr=p['hdr'], scratch=ctx.scratch, what='attack', backend=be, name=f'{be}-atk{i}', rseed=ctx.seed * 13 + i, seeds=[ctx.seed * 1000003 + i + j for j in range(per)], steps=ctx.q(10, 14)))
+    for be in backends: jobs.append(dict(paths=p, hdr=p['hdr'], scratch=ctx.scratch, what='wrapguard', backend=be, name=f'{be}-wrapguard', rseed=ctx.seed * 17 + 5))
     jobs.sort(key=lambda j: 0 if j.get('kind') == 'RSApriv' else 1)
     for part in pmap(worker, jobs, ctx.nproc): ctx.merge(part)
     ctx.assumptions += ['set/copy attempts are judged by their effect only: whether a non-canonical CK_BBOOL byte is rejected or normalised is the token\'s choice; "protection removed" (flag, reveal or wrap) is the violation',
